@@ -77,7 +77,8 @@ c = contract(PL + "derive_key.DeriveKeyResponsePayload.__init__").props('C07', '
 c.args(self='opaque', unique_identifier='opaque', template_attribute='none')
 c.ensures("self._unique_identifier == unique_identifier", name="identifier-as-given")
 c.modifies("self._unique_identifier", "self._template_attribute")
-c.trust("response payload constructor: type-checks and stores the identifier string (codec: C01)")
+c.trust("response payload constructor: type-checks and stores the identifier string (codec: C01); proved against "
+        "the constructor body for every string by the variant contract __init__#body (contracts/c_response_ctors.py)")
 
 c = contract(E + "_process_derive_key").props('C03', 'C04', 'C06', 'C07', 'C08', 'C09', 'C13')
 c.args(self=ENGINE, payload=PAYLOAD)
